@@ -227,6 +227,7 @@ func cmdGen(args []string) {
 	for i := 0; i < *n; i++ {
 		r := rand.New(rand.NewSource(*seed*1000003 + int64(i)))
 		genIndex = i
+		genSeed = *seed
 		var s Schedule
 		s.ID = fmt.Sprintf("%s-walk-%d-%d", *family, *seed, i)
 		s.Scene = *family
@@ -254,5 +255,6 @@ func cmdGen(args []string) {
 }
 
 var genIndex int // index of the schedule being generated (scripted prefixes are placed deterministically)
+var genSeed int64 // the seed of the generation run
 
 var extraGens = map[string]func(r *rand.Rand, depth int) (string, []Step){}
